@@ -49,7 +49,8 @@ inductive Eff (s s' : Sh) : Prop
   /-- nothing the invariant reads changes, except that elements may leave the heap, inert events may
   be logged and the clock may advance -/
   | core (new : List Ev) : HSub s'.heap s.heap → s'.log = new ++ s.log → (∀ ev ∈ new, ev.inert = true) →
-      s'.next = s.next → s'.closed = s.closed → s'.reg = s.reg → s'.flags = s.flags → s.clock ≤ s'.clock → Eff s s'
+      s'.next = s.next → (∀ y ∈ s.closed, y ∈ s'.closed) →
+      (∀ j y, regGet s'.reg j = some y → regGet s.reg j = some y) → s'.flags = s.flags → s.clock ≤ s'.clock → Eff s s'
   /-- `QueueElement.Cancel()` -/
   | cancel (x : Nat) : HSub s'.heap s.heap → s'.log = .cancelled x :: s.log → s'.next = s.next →
       (∀ y, y ∈ s'.closed ↔ y = x ∨ y ∈ s.closed) → s'.reg = s.reg → s'.flags = s.flags →
@@ -61,7 +62,7 @@ inductive Eff (s s' : Sh) : Prop
   /-- a successful `Queue.Add`, registering the element if it has an identifier -/
   | addOk (due : Nat) (id : Option Nat) (kind : Kind) (tag : Nat) (new : List Ev) :
       HSub s'.heap (newElem s due id kind tag :: s.heap) → (∀ ev ∈ new, ev.inert = true) →
-      s'.log = new ++ .sched s.next id due :: s.log → s'.next = s.next + 1 → s'.closed = s.closed →
+      s'.log = new ++ .sched s.next id due :: s.log → s'.next = s.next + 1 → (∀ y ∈ s.closed, y ∈ s'.closed) →
       s'.reg = regAfter s.reg id s.next →
       s'.flags = s.flags → s'.clock = s.clock → Eff s s'
   /-- first part of `Queue.Shutdown` -/
@@ -154,7 +155,8 @@ theorem Eff.ext {s s' : Sh} (h : Eff s s') : Ext s s' := by
 
 theorem inv_eff_core {s s' : Sh} {ts : List Th} (h : Inv s ts) (new : List Ev) (hh : HSub s'.heap s.heap)
     (hl : s'.log = new ++ s.log) (hin : ∀ ev ∈ new, ev.inert = true) (hn : s'.next = s.next)
-    (hcl : s'.closed = s.closed) (hr : s'.reg = s.reg) (hf : s'.flags = s.flags) (hk : s.clock ≤ s'.clock) :
+    (hcl : ∀ y ∈ s.closed, y ∈ s'.closed) (hr : ∀ j y, regGet s'.reg j = some y → regGet s.reg j = some y)
+    (hf : s'.flags = s.flags) (hk : s.clock ≤ s'.clock) :
     Inv s' ts := by
   have x := (Eff.core new hh hl hin hn hcl hr hf hk).ext
   have ls := logSame_inert (log := s.log) hin
@@ -164,12 +166,12 @@ theorem inv_eff_core {s s' : Sh} {ts : List Th} (h : Inv s ts) (new : List Ev) (
   · intro y hy; rw [hl, ls.dc, ls.rev, ls.due]; exact h.fresh y (by omega)
   · intro e he; exact (h.heap_ok e (hh.mem he)).ext x
   · intro t ht; exact (h.th_ok t ht).ext x
-  · intro y hy; rw [hl, ls.canc] at hy; rw [hcl]; exact h.c1 y hy
+  · intro y hy; rw [hl, ls.canc] at hy; exact hcl _ (h.c1 y hy)
   · intro hi; rw [hl, ls.ign]; rw [hf] at hi; exact h.ign hi
-  · intro i y hy; rw [hr] at hy; rw [hn]; exact h.r_lt i y hy
-  · intro i y hy; rw [hr] at hy; rw [hl, ls.rev, ls.rc]; exact h.r_rev i y hy
-  · intro i y hy; rw [hr] at hy; rw [hl, ls.idf]; exact h.r_id i y hy
-  · intro i j y hi hj; rw [hr] at hi hj; exact h.r_inj i j y hi hj
+  · intro i y hy; rw [hn]; exact h.r_lt i y (hr i y hy)
+  · intro i y hy; rw [hl, ls.rev, ls.rc]; exact h.r_rev i y (hr i y hy)
+  · intro i y hy; rw [hl, ls.idf]; exact h.r_id i y (hr i y hy)
+  · intro i j y hi hj; exact h.r_inj i j y (hr i y hi) (hr j y hj)
   · intro y hy; rw [hl, ls.rev] at hy; rw [hl, ls.idf]; exact h.rev_id y hy
   · rw [hl, ls.ok]; exact h.ok
 
@@ -275,7 +277,7 @@ theorem wr_zero_of_fresh {s : Sh} {ts : List Th} (h : ∀ t ∈ ts, TOk s t) {y 
 theorem inv_eff_addOk {s s' : Sh} {ts : List Th} (h : Inv s ts) (due : Nat) (id : Option Nat) (kind : Kind)
     (tag : Nat) (new : List Ev) (hh : HSub s'.heap (newElem s due id kind tag :: s.heap))
     (hin : ∀ ev ∈ new, ev.inert = true) (hl : s'.log = new ++ .sched s.next id due :: s.log)
-    (hn : s'.next = s.next + 1) (hcl : s'.closed = s.closed)
+    (hn : s'.next = s.next + 1) (hcl : ∀ y ∈ s.closed, y ∈ s'.closed)
     (hr : s'.reg = regAfter s.reg id s.next)
     (hf : s'.flags = s.flags) (hk : s'.clock = s.clock) : Inv s' ts := by
   have ex := (Eff.addOk due id kind tag new hh hin hl hn hcl hr hf hk).ext
@@ -331,8 +333,8 @@ theorem inv_eff_addOk {s s' : Sh} {ts : List Th} (h : Inv s ts) (due : Nat) (id 
       · rw [hl, ls.idf, hidf]; simp [newElem]
     · exact (h.heap_ok e hm).ext ex
   · intro t ht; exact (h.th_ok t ht).ext ex
-  · intro y hy; rw [hl, ls.canc] at hy; rw [hcl]
-    simp only [List.any_cons, Ev.isCancelled, Bool.false_or] at hy; exact h.c1 y hy
+  · intro y hy; rw [hl, ls.canc] at hy
+    simp only [List.any_cons, Ev.isCancelled, Bool.false_or] at hy; exact hcl _ (h.c1 y hy)
   · intro hi; rw [hf] at hi; rw [hl, ls.ign]; simpa [Ev.isIgnoreShutdown] using h.ign hi
   · intro j y hy; rw [hn]
     rcases hreg j y hy with ⟨_, rfl⟩ | hy'
